@@ -106,12 +106,22 @@ pub(crate) fn unbond(
             BOND.save(deps.storage, (&info.sender, &denom), &unbond)?;
         }
 
-        // record the unbonding
+        // record the unbonding. If the same address already unbonded this denom in this very block,
+        // the record for this timestamp exists already, so accumulate instead of overwriting it
+        let unbonding_amount = match UNBOND
+            .may_load(deps.storage, (&info.sender, &denom, timestamp.nanos()))?
+        {
+            Some(existing_unbonding) => existing_unbonding.asset.amount.checked_add(asset.amount)?,
+            None => asset.amount,
+        };
         UNBOND.save(
             deps.storage,
             (&info.sender, &denom, timestamp.nanos()),
             &Bond {
-                asset: asset.clone(),
+                asset: Asset {
+                    amount: unbonding_amount,
+                    ..asset.clone()
+                },
                 weight: Uint128::zero(),
                 timestamp,
             },
